@@ -29,8 +29,8 @@ open SpsdkVerif.Crypto (HashAlg CryptoOps Bytes SigAlg)
 open SpsdkVerif.Rkht (RootKeyRecord exportV1 exportV21 rkhtV1Init rkhtInit rkrHashAlgorithm)
 
 namespace G
-export SpsdkVerif.Generated.RotTypes (cbV1HeaderFormat cbV1HeaderWidths cbV1Signature cbV1Alignment cbV1HeaderOrder
-  cbV21HeaderFormat cbV21HeaderWidths cbV21Magic cbV21HeaderOrder
+export SpsdkVerif.Generated.RotTypes (cbV1HeaderFormat cbV1HeaderWidths cbV1Signature cbV1Alignment
+  cbV21HeaderFormat cbV21HeaderWidths cbV21Magic
   rkrParseCaMask rkrParseUsedMask rkrParseUsedShift rkrParseCountMask rkrParseCountShift rkrParseHashLen rkrParseCurveMask
   iskUserDataBit iskCurveBits iskNoOffsetMagic iskNoOffsetSigOffset iskParseUserDataMask iskParseKeyLen rkhV1Size rkhtV1Slots)
 end G
